@@ -240,16 +240,16 @@ def budget_for(ctx, cfg, who, pad):
     quick: the lengths around 2^14 and its multiples are exercised on one connection per
     (version, fast cipher); the other connections use small limits, where the same boundaries are cheap"""
     if cfg["cipher"] in R.SLOW:
-        return ctx.pick(1200, 12000)
+        return ctx.pick(1200, 3000)
     if pad != "none":
-        return ctx.pick(3000, 40000)
-    big = ctx.thorough() or (cfg["rsl"] == ("default", "default") and cfg["cipher"] in FAST_BIG
-                             and (cfg["etm"] or R.CIPHER_SHAPE[cfg["cipher"]][0] != "block"))
+        return ctx.pick(3000, 8000)
+    big = (cfg["rsl"] == ("default", "default") and (cfg["cipher"] in FAST_BIG or ctx.thorough())
+           and (cfg["etm"] or R.CIPHER_SHAPE[cfg["cipher"]][0] != "block" or ctx.thorough()))
     if not big:
-        return 6000
+        return ctx.pick(6000, 12000)
     if who == "client":
-        return ctx.pick(70000, 400000)
-    return ctx.pick(34000, 200000)
+        return ctx.pick(70000, 140000)
+    return ctx.pick(34000, 70000)
 
 
 def parse_records(data):
@@ -417,14 +417,14 @@ def run_live(ctx, cfg, script=None, record=True):
             budget = min(budget_for(ctx, cfg, who, pads[who]), limits[who] * ctx.pick(150, 500))
             lens = boundary_lengths(cfg, limits[who], budget)
             cap = max(1, min(budget // 4, 3 * limits[who] + 10))
-            extra = [rng.randrange(0, cap + 1) for _ in range(3 if not ctx.thorough() else 10)]
+            extra = [rng.randrange(0, cap + 1) for _ in range(3 if not ctx.thorough() else 6)]
             for n in lens + extra:
                 if failed[0]:
                     break
                 do_write(who, rb(rng, n))
                 drain(peer[who])
         # interleaved phase: several writes in both directions before any read, reads in random order
-        for _ in range(3 if not ctx.thorough() else 8):
+        for _ in range(3 if not ctx.thorough() else 5):
             if failed[0]:
                 break
             for _ in range(rng.randrange(2, 6)):
@@ -510,7 +510,10 @@ def ucfg(d):
 
 def live_streams(ctx):
     budget = ctx.pick(150, 1000)
-    for cfg in live_configs(ctx):
+    cfgs = list(live_configs(ctx))
+    if ctx.thorough():
+        ctx.rng.shuffle(cfgs)       # whatever does not fit into the budget is spread over all dimensions
+    for cfg in cfgs:
         if ctx.elapsed() > budget:
             ctx.count("live:skipped-out-of-time")
             continue
